@@ -15,6 +15,8 @@ type simState struct {
 	jailed  map[int]bool
 	history map[int][]int64 // earlier powers per validator
 	next    int             // next unused pool identity
+	lastRemoved, lastRemovedAt, cur int // validator removed most recently, the block index of that, the current block index
+	matured map[int]bool // removed validators whose unbonding period has (probably) ended: their record is gone, they can apply again
 }
 
 func (s *simState) total() int64 {
@@ -117,7 +119,7 @@ func genHistory(r *rand.Rand, profile string) History {
 	if r.Intn(5) == 0 {
 		g.Denom = "upoa" // a chain whose bond denom is not the SDK default
 	}
-	s := &simState{power: map[int]int64{}, pending: map[int]bool{}, removed: map[int]bool{}, jailed: map[int]bool{}, history: map[int][]int64{}, next: len(g.Tokens), justUnjailed: -1}
+	s := &simState{power: map[int]int64{}, pending: map[int]bool{}, removed: map[int]bool{}, jailed: map[int]bool{}, history: map[int][]int64{}, next: len(g.Tokens), justUnjailed: -1, lastRemoved: -1, matured: map[int]bool{}}
 	for i, t := range g.Tokens {
 		s.power[i] = t / 1_000_000
 	}
@@ -140,6 +142,10 @@ func genHistory(r *rand.Rand, profile string) History {
 				blk.Dt = minUnbond + 1 + int64(r.Intn(40)) // past every maturity; safe only when nothing started unbonding in the last two blocks
 				if lastUnbondingRisk >= b-2 {
 					blk.Dt = minUnbond * 2 / 5
+				} else if blk.Dt > 40 {
+					for v := range s.removed {
+						s.matured[v] = true
+					}
 				}
 			}
 			lastLong = b
@@ -160,6 +166,11 @@ func genHistory(r *rand.Rand, profile string) History {
 		}
 		now += blk.Dt
 		nowAt = append(nowAt, now)
+		s.cur = b
+		// a removed validator is still asked for its votes on the next two blocks: let it miss them (bits recorded after its removal)
+		if s.lastRemoved >= 0 && b > s.lastRemovedAt && b <= s.lastRemovedAt+2 && r.Intn(2) == 0 {
+			blk.Absent = append(blk.Absent, s.lastRemoved)
+		}
 		// double-sign evidence: about an active validator, one that is being or has been jailed, one that was removed or just admitted;
 		// of a recent height (sometimes too old for x/evidence), with the power it had or an arbitrary one
 		if withEvidence && b >= 2 && r.Intn(7) == 0 {
@@ -287,6 +298,13 @@ func genHistory(r *rand.Rand, profile string) History {
 
 func (s *simState) genWorkflow(r *rand.Rand) MsgSpec {
 	M := uint64(1_000_000)
+	// a removed validator whose record is gone applies again under its old key (the workflow below admits it later)
+	if v, ok := anyKey(r, s.matured); ok && r.Intn(3) == 0 {
+		delete(s.matured, v)
+		delete(s.removed, v)
+		s.pending[v] = true
+		return createMsg(v, v)
+	}
 	switch x := r.Intn(100); {
 	case x < 12 && s.next < poolSize: // new application
 		id := s.next
@@ -320,6 +338,7 @@ func (s *simState) genWorkflow(r *rand.Rand) MsgSpec {
 		if len(s.power) > 1 || r.Intn(4) == 0 {
 			delete(s.power, v)
 			s.removed[v] = true
+			s.lastRemoved, s.lastRemovedAt = v, s.cur
 		}
 		sender := adminID
 		if r.Intn(4) == 0 {
@@ -363,6 +382,11 @@ func (s *simState) genHazard(r *rand.Rand, g Genesis) MsgSpec {
 		if v, ok := anyKey(r, s.removed); ok {
 			if r.Intn(3) == 0 {
 				return rm(adminID, v)
+			}
+			if r.Intn(3) == 0 { // it applies again (accepted once its record is gone); the workflow admits it later
+				delete(s.removed, v)
+				s.pending[v] = true
+				return createMsg(v, pick(r, []int{v, v, v, r.Intn(poolSize)}))
 			}
 			return sp(adminID, v, uint64(1+r.Intn(20))*M, true)
 		}
